@@ -140,6 +140,9 @@ func outcomeOf(err error) string {
 	if strings.HasPrefix(s, "app:") {
 		return "app:" + fmt.Sprintf("%x", s[4:])
 	}
+	if strings.Contains(s, "unencodable argument") {
+		return "encodeerr"
+	}
 	if strings.Contains(s, "not found") {
 		return "notfound"
 	}
@@ -290,6 +293,19 @@ type sessOp struct {
 	cancel  bool          // a canceller actor exists for this op
 	timeout time.Duration // >0: client timeout
 	pad     int           // payload padding (bytes) to approach the frame limit
+	badarg  bool          // the argument cannot be encoded (its MarshalBinary fails)
+}
+
+// unencodable fails in go-codec's encoder: a field that marshals itself
+// (BinaryMarshaler + BinaryUnmarshaler) and refuses to.
+type unencodableID struct{ b []byte }
+
+func (u unencodableID) MarshalBinary() ([]byte, error) { return nil, errors.New("unencodable argument") }
+func (u *unencodableID) UnmarshalBinary(b []byte) error { u.b = b; return nil }
+
+type unencodable struct {
+	A  int
+	ID unencodableID
 }
 
 func (s *session) runOp(op sessOp, ctx context.Context) {
@@ -298,12 +314,18 @@ func (s *session) runOp(op sessOp, ctx context.Context) {
 	if op.pad > 0 {
 		arg = map[string]interface{}{"n": op.nonce, "pad": strings.Repeat("x", op.pad)}
 	}
+	if op.badarg {
+		arg = unencodable{}
+	}
 	if op.tagged {
 		ctx = AddRPCTagsToContext(ctx, CtxRPCTags{"t": op.nonce})
 	}
 	tg := 0
 	if op.tagged {
 		tg = 1
+	}
+	if op.badarg {
+		s.r.ev("badarg %d", op.caller)
 	}
 	s.r.ev("cb %d %d %s %s %d %d %d", op.caller, op.ep, op.kind, op.method, op.nonce, op.ctype, tg)
 	var err error
@@ -365,9 +387,30 @@ func genPlan(g *prng, flavour string) sessPlan {
 				op.timeout = 2 * time.Second
 			}
 		}
+		if (op.kind == "call" || op.kind == "callc") && g.chance(1, 12) {
+			op.badarg = true
+		}
 		p.ops = append(p.ops, op)
 	}
 	switch flavour {
+	case "burst":
+		// overlapping notification / call handlers in one direction, finishing in every order
+		ep := g.intn(2)
+		p.ops = nil
+		nb := 3 + g.intn(4)
+		for i := 0; i < nb; i++ {
+			op := sessOp{caller: i, ep: ep, nonce: int64(100 + i*7 + g.intn(5))}
+			op.kind = []string{"notify", "notify", "notify", "call"}[g.intn(4)]
+			op.method = []string{"hold", "hold", "echo", "wait"}[g.intn(4)]
+			if op.method == "wait" && op.kind == "call" {
+				op.cancel = true
+			}
+			p.ops = append(p.ops, op)
+		}
+		if g.chance(1, 3) {
+			p.closer = fmt.Sprintf("ext%d", 1-ep)
+			p.closers = 1
+		}
 	case "close":
 		p.closer = []string{"ext0", "ext1", "cut0", "cut1", "ext0", "handler"}[g.intn(6)]
 		p.closers = 1 + g.intn(3)
@@ -462,6 +505,15 @@ func runSession(g *prng, p sessPlan, script []string) (hist []string, trace []st
 		}
 	}
 	if len(p.inject) > 0 {
+		// protocols can be registered while the transport is running: must not be affected by earlier not-found frames
+		r.spawn("reg", func() {
+			verifPoint("@reg.wait")
+			verifPoint("@reg.wait2")
+			ep := len(p.inject) % 2
+			r.ev("regb %d", ep)
+			_ = s.ep[ep].srv.Register(Protocol{Name: "late", Methods: map[string]ServeHandlerDescription{}})
+			r.ev("rege %d", ep)
+		})
 		r.spawn("inj", func() {
 			enc := &altEnc{}
 			for k, spec := range p.inject {
@@ -576,7 +628,7 @@ func runSession(g *prng, p sessPlan, script []string) (hist []string, trace []st
 
 func init() {
 	verifModes["session"] = func(c *vctx) {
-		flavours := strings.Split(c.envOr("VERIF_FLAVOURS", "plain,close,limit,hostile,faultat"), ",")
+		flavours := strings.Split(c.envOr("VERIF_FLAVOURS", "plain,close,limit,hostile,faultat,burst"), ",")
 		leaks := 0
 		var totalSteps int
 		var faBase *sessPlan
